@@ -743,6 +743,8 @@ class C01(Prop):
         """one call (sometimes two that belong together) of a public mutator, valid for the tracked state"""
         kinds = ["cal_edit", "cal_edit", "cal_set", "info_set", "info_pop", "info_assign", "cfg", "cfg", "cfg", "cfg_assign",
                  "rename", "add", "remove", "order", "order"]
+        if st["cfg"] == "srr":   # the SRR configuration has the most writers (two setters and a mutator besides the attributes)
+            kinds += ["cfg"] * 5
         t = core.tok
         for _ in range(50):
             k = only or rng.choice(kinds)
@@ -952,7 +954,7 @@ class C01(Prop):
                     "elements": [{"name": "A", "dtype": "<f8", "bits": [[t(1.5)], [t(2.5)]]}], "cals": [], "config": cfg,
                     "info": [], "stem": "laser", "chain": rng.choice([1, 2, 3])}
         r = rng.random()
-        if 0.4 <= r < 0.6:
+        if 0.4 <= r < 0.65:
             return self.gen_history(rng)
         kind = "layouts" if r < 0.3 else "crossclass" if r < 0.4 else "roundtrip"
         case = {"kind": kind, **self.gen_laser(rng, old_layout=(kind == "layouts"), empty_cals=rng.random() < 0.15)}
@@ -1067,6 +1069,86 @@ class C01(Prop):
         yield {**two, "shapes": [[1, 3]], "elements": [el("A", bits=[[1, 2, 3]])], "as_cls": "SRR"}   # one row: SRRLaser asserts
         yield {**two, "config": {**raster, "scantime": t(0.1)}, "as_cls": "SRR"}                       # 12.5 / 0.1 in floats
         yield {**two, "config": {**raster, "scantime": t(0.0)}, "as_cls": "SRR", "excluded": "unmodelled"}
+        # ---- the calibration dict in another order than the data fields: first entry moved to the end, the dict
+        # reassigned in reverse, an entry replaced by a re-fit, the image replaced by one with rotated fields — in the
+        # current layout (two generations), in the 0.6 / 0.7 layouts and with another class name in the header
+        ca = {**cal0, "intercept": t(0.5), "gradient": t(2.0), "unit": "ppm", "points": [[t(0.0), t(1.0)], [t(1.0), t(3.0)], [t(2.0), t(5.5)]], "weights": "1/x"}
+        cb = {**cal0, "intercept": t(-1.25), "gradient": t(4.0), "unit": "ppb", "points": [[t(1.0), t(2.0)], [NAN_Q, t(4.0)]], "weights": "Equal"}
+        cc = {**cal0, "intercept": t(3.0), "gradient": t(0.125), "unit": "ug/g", "weights": "x"}
+        cd = {**cal0, "intercept": t(7.0), "unit": "re-fit", "points": [[t(1.0), t(1.0)]], "weights": {"name": "w", "values": [t(2.0)]}}
+        abc = ["Fe56", "Zn66", "P31"]
+        orders = {
+            "move_end": [{"op": "cal_move_end", "key": "Fe56"}],
+            "reversed": [{"op": "cal_reorder", "order": abc[::-1]}],
+            "pop_set": [{"op": "cal_pop", "key": "Zn66"}, {"op": "cal_set", "key": "Zn66", "cal": cd}],
+            "data_rotated": [{"op": "data_reorder", "order": abc[1:] + abc[:1]}],
+            "swap_two_of_two": None,
+        }
+        spotc = {"class": "spot", "spotsize": t(10.0), "spotsize_y": t(20.0)}
+        for how, pre in orders.items():
+            for cls, cfg, shapes, n in (("laser", raster, [[1, 2]], 1), ("spot", spotc, [[1, 2]], 1), ("srr", srr, [[1, 2], [1, 2]], 2)):
+                if pre is None:
+                    els3 = [el(nm, bits=[[i + 1, i + 5]] * n) for i, nm in enumerate(abc[:2])]
+                    cs, ops_ = [[0, ca], [1, cb]], [{"op": "cal_move_end", "key": "Fe56"}]
+                else:
+                    els3 = [el(nm, bits=[[i + 1, i + 5]] * n) for i, nm in enumerate(abc)]
+                    cs, ops_ = [[0, ca], [1, cb], [2, cc]], pre
+                b3 = {**base, "cls": cls, "config": cfg, "shapes": shapes, "elements": els3, "cals": cs, "pre": ops_}
+                yield {**b3, "chain": 2}
+                l3 = {**b3, "kind": "layouts", "v06": "0.6.0", "v07": "0.7.0", "legacy_class": cls == "srr", "info": [["Name", "n"]]}
+                del l3["chain"]
+                yield l3
+            yield {**base, "kind": "crossclass", "shapes": [[1, 2]], "elements": [el(nm, bits=[[i + 1, i + 5]]) for i, nm in enumerate(abc)],
+                   "cals": [[0, ca], [1, cb], [2, cc]], "pre": pre or orders["move_end"], "as_cls": "Laser"}
+        # ---- histories: save, one call of every public mutator, save again (and the same on the object the first load
+        # returned); every load is judged against the state at its save
+        pth = {"stem": "laser", "suffix": ".npz", "as": "path"}
+        sv = {"step": "save", "path": pth}
+        common = [
+            {"op": "cal_set", "key": "Fe56", "cal": cd}, {"op": "cal_move_end", "key": "Fe56"},
+            {"op": "cal_reorder", "order": ["Zn66", "Fe56"]},
+            {"op": "cal_edit", "key": "Fe56", "edit": {"what": "intercept", "value": t(9.0)}},
+            {"op": "cal_edit", "key": "Fe56", "edit": {"what": "gradient", "value": t(-0.0)}},
+            {"op": "cal_edit", "key": "Zn66", "edit": {"what": "unit", "value": "µg/g"}},
+            {"op": "cal_edit", "key": "Fe56", "edit": {"what": "rsq", "value": t(0.5)}},
+            {"op": "cal_edit", "key": "Fe56", "edit": {"what": "error", "value": None}},
+            {"op": "cal_edit", "key": "Zn66", "edit": {"what": "points", "value": [[t(1.0), NAN_Q], [t(2.0), t(3.0)], [t(4.0), t(5.0)]]}},
+            {"op": "cal_edit", "key": "Fe56", "edit": {"what": "weighting", "value": "1/(y^2)"}},
+            {"op": "cal_edit", "key": "Fe56", "edit": {"what": "custom", "name": "mine", "value": [t(1.0), NAN_Q, t(3.0)]}},
+            {"op": "info_set", "key": "Operator", "value": "x\ty"}, {"op": "info_set", "key": "Name", "value": "renamed"},
+            {"op": "info_pop", "key": "k"}, {"op": "info_assign", "items": [["a\tb", "1"], ["a b", "2"]]},
+            {"op": "cfg", "what": "spotsize", "value": t(12.5)},
+            {"op": "rename", "names": [["Fe56", "Fe57"]]}, {"op": "rename", "names": [["Fe56", "Zn66"], ["Zn66", "Fe56"]]},
+            {"op": "remove", "names": ["Fe56"], "as_str": True}, {"op": "remove", "names": ["Zn66"], "as_str": False},
+            {"op": "data_reorder", "order": ["Zn66", "Fe56"]},
+        ]
+        per_cls = {
+            "laser": [{"op": "cfg", "what": "speed", "value": t(70.0)}, {"op": "cfg", "what": "scantime", "value": t(0.1)},
+                      {"op": "cfg_assign", "config": spotc}, {"op": "cfg_assign", "config": {**raster, "speed": t(1.0)}}],
+            "spot": [{"op": "cfg", "what": "spotsize_y", "value": t(0.3)}, {"op": "cfg_assign", "config": raster}],
+            "srr": [{"op": "cfg", "what": "speed", "value": t(70.0)}, {"op": "cfg", "what": "scantime", "value": t(0.3)},
+                    {"op": "cfg", "what": "warmup", "value": t(4.3)}, {"op": "cfg", "what": "warmup", "value": t(0.0)},
+                    {"op": "cfg", "what": "offsets", "value": [[0, 3], [2, 3]], "as_array": False},
+                    {"op": "cfg", "what": "offsets", "value": [[0, 2], [1, 3], [3, 4]], "as_array": True},
+                    {"op": "cfg", "what": "equal_offsets", "value": 3}, {"op": "cfg", "what": "equal_offsets", "value": 1},
+                    {"op": "cfg_assign", "config": {**srr, "scantime": t(0.5), "warmup": t(2.0), "offsets": [[1, 4], [3, 4]]}}],
+        }
+        for cls, cfg, shapes, n in (("laser", raster, [[1, 2]], 1), ("spot", spotc, [[1, 2]], 1), ("srr", srr, [[1, 2], [1, 2]], 2)):
+            h = {"kind": "history", "cls": cls, "shapes": shapes, "config": cfg, "info": [["k", "v"], ["Name", "n"]],
+                 "elements": [el("Fe56", bits=[[1, 5]] * n), el("Zn66", "<i4", [[2, 6]] * n)], "cals": [[0, ca], [1, cb]]}
+            adds = [{"op": "add", "name": "P31", "dtype": "<f4", "bits": [[3, 7]] * n, "cal": cc},
+                    {"op": "add", "name": "new", "dtype": "<u2", "bits": [[3, 7]] * n, "cal": None}]
+            for op in common + per_cls[cls] + adds:
+                o = {"step": "op", **op}
+                yield {**h, "steps": [sv, o, sv]}
+                if op["op"] == "info_pop":   # a loaded laser has lost nothing but gained keys
+                    o = {"step": "op", "op": "info_pop", "key": "File Version"}
+                yield {**h, "steps": [sv, {"step": "adopt"}, o, sv]}
+            # three files of one object, reads in between, names that np.savez completes with '.npz'
+            o1, o2 = per_cls[cls][0], common[5]
+            yield {**h, "steps": [sv, {"step": "read", "what": "to_array"}, {"step": "op", **o1},
+                                  {"step": "save", "path": {"stem": "other", "suffix": "", "as": "str"}}, {"step": "read", "what": "get"},
+                                  {"step": "op", **o2}, {"step": "save", "path": {"stem": "x.y", "suffix": ".dat", "as": "path"}}]}
         # known findings (targeted only)
         yield {**base, "cls": "srr", "shapes": [[1, 2], [2, 1]], "elements": [{"name": "A", "dtype": "<f8", "bits": [[1, 2], [3, 4]]}],
                "config": srr, "expect_known": "C01-srr-unequal-layers-unsaveable"}
@@ -1453,6 +1535,22 @@ class C01(Prop):
     # ------------------------------------------------------------------ shrinking
     def shrink(self, case):
         els = case["elements"]
+        if case["kind"] == "history":
+            steps = case["steps"]
+            nsave = sum(1 for x in steps if x["step"] == "save")
+            for i in range(len(steps)):
+                if steps[i]["step"] == "save" and nsave == 1:
+                    continue
+                yield {**case, "steps": steps[:i] + steps[i + 1:]}
+            for i, x in enumerate(steps):
+                if x["step"] == "save" and (x["path"]["suffix"] != ".npz" or x["path"]["as"] != "path"):
+                    yield {**case, "steps": steps[:i] + [{**x, "path": {**x["path"], "suffix": ".npz", "as": "path"}}] + steps[i + 1:]}
+        if case.get("pre"):
+            pre = case["pre"]
+            for i in range(len(pre)):
+                yield {**case, "pre": pre[:i] + pre[i + 1:]}
+        if case.get("layout", "C") != "C":
+            yield {**case, "layout": "C"}
         if case.get("chain", 1) > 2:
             yield {**case, "chain": 2}
         if len(els) > 1:
